@@ -769,12 +769,15 @@ func (h *hist) stepStatus(forcedKind int) {
 			impl = v
 		} else {
 			impl = ternTok(v)
-			if neg { // NOT of a ternary: undo it here so that the line shows the status itself
-				impl = map[string]string{"T": "F", "F": "T", "U": "U"}[impl]
-			}
 		}
 	}
-	h.o.Case("c16."+op+" "+name, impl)
+	// the negated spelling goes to the model as it is (`cursorStatus true`); the law below states it
+	// with the harness' own three-valued NOT
+	if neg {
+		h.o.Case("c16."+op+" "+name+" not", impl)
+	} else {
+		h.o.Case("c16."+op+" "+name, impl)
+	}
 	want := ""
 	st := "undeclared"
 	switch {
@@ -793,6 +796,11 @@ func (h *hist) stepStatus(forcedKind int) {
 	}
 	if exists {
 		st = map[bool]string{true: "open", false: "closed"}[c.open]
+	}
+	if neg { // IS NOT …: TRUE <-> FALSE, UNKNOWN stays UNKNOWN, errors stay errors
+		if w, ok := map[string]string{"T": "F", "F": "T", "U": "U"}[want]; ok {
+			want = w
+		}
 	}
 	if impl != want && !(exists && c.pendingOvf != nil) {
 		ln := "status_agree"
